@@ -418,6 +418,74 @@ class _BitsNp:
     def abs(self, x):
         return abs(Fx.lift(x))
 
+    absolute = abs
+    fabs = abs
+
+    def rint(self, x):
+        x = Fx.lift(x)
+        if x.k == 'i':
+            return x
+        return Fx('f', z3.fpRoundToIntegral(RNE, x.tof()))
+
+    def trunc(self, x):
+        x = Fx.lift(x)
+        if x.k == 'i':
+            return x
+        return Fx('f', z3.fpRoundToIntegral(z3.RTZ(), x.tof()))
+
+    fix = trunc
+
+    def round(self, x, decimals=0):
+        """numpy.round: rint(x * 10**d) / 10**d  (round-half-even on the scaled value)"""
+        x = Fx.lift(x)
+        if x.k == 'i':
+            return x
+        if decimals == 0:
+            return self.rint(x)
+        sc = z3.FPVal(float(10 ** decimals), F64)
+        y = z3.fpRoundToIntegral(RNE, z3.fpMul(RNE, x.tof(), sc))
+        return Fx('f', z3.fpDiv(RNE, y, sc))
+
+    around = round
+
+    def isclose(self, a, b, rtol=1e-05, atol=1e-08, **k):
+        a, b = Fx('f', Fx.lift(a).tof()), Fx('f', Fx.lift(b).tof())
+        lhs = z3.fpAbs(z3.fpSub(RNE, a.z, b.z))
+        rhs = z3.fpAdd(RNE, z3.FPVal(float(atol), F64), z3.fpMul(RNE, z3.FPVal(float(rtol), F64), z3.fpAbs(b.z)))
+        return FBool(z3.fpLEQ(lhs, rhs))
+
+    def allclose(self, a, b, **k):
+        return self.isclose(a, b, **k)
+
+    def where(self, c, a, b):
+        a, b = Fx.lift(a), Fx.lift(b)
+        k, za, zb = a._pair(b)
+        return Fx(k, z3.If(_zb(c), za, zb))
+
+    def maximum(self, a, b):
+        a, b = Fx.lift(a), Fx.lift(b)
+        k, za, zb = a._pair(b)
+        return Fx(k, z3.If((za >= zb) if k != 'f' else z3.fpGEQ(za, zb), za, zb))
+
+    def minimum(self, a, b):
+        a, b = Fx.lift(a), Fx.lift(b)
+        k, za, zb = a._pair(b)
+        return Fx(k, z3.If((za <= zb) if k != 'f' else z3.fpLEQ(za, zb), za, zb))
+
+    def sign(self, x):
+        x = Fx.lift(x)
+        if x.k == 'f':
+            one = z3.FPVal(1.0, F64)
+            return Fx('f', z3.If(z3.fpGT(x.z, z3.FPVal(0.0, F64)), one, z3.If(z3.fpLT(x.z, z3.FPVal(0.0, F64)), z3.fpNeg(one), z3.FPVal(0.0, F64))))
+        return Fx(x.k, z3.If(x.z > 0, z3.BitVecVal(1, W) if x.k == 'i' else z3.BitVecVal(1 << FRAC, W),
+                             z3.If(x.z < 0, z3.BitVecVal(-1, W) if x.k == 'i' else z3.BitVecVal(-(1 << FRAC), W), z3.BitVecVal(0, W))))
+
+    def float64(self, x=0.0):
+        return _vfloat(x)
+
+    def int64(self, x=0):
+        return _vint(x)
+
     def __getattr__(self, name):
         import numpy
         return getattr(numpy, name)
@@ -432,6 +500,13 @@ def _vint(x=0, *a):
                 return r
         return x.toint()
     return int(x, *a)
+
+
+def _vround(x, n=None):
+    if isinstance(x, Fx):
+        r = _BitsNp().round(x, n or 0)
+        return r.toint() if n is None else r
+    return round(x, n) if n is not None else round(x)
 
 
 def _vfloat(x=0):
@@ -473,7 +548,7 @@ def _vgetitem(container, index):
 def helpers():
     import math
     h = lift.identity_helpers()
-    h.update({'__vf__': float, '__vdiv__': _vdiv, '__vpow__': _vpow, '__vint__': _vint, '__vfloat__': _vfloat,
+    h.update({'__vf__': float, '__vdiv__': _vdiv, '__vpow__': _vpow, '__vint__': _vint, '__vfloat__': _vfloat, '__vround__': _vround,
               '__visinstance__': _visinstance, '__vgetitem__': _vgetitem, '__vmath__': math})
     return h
 
